@@ -3,18 +3,20 @@
    truncation warnings, the range of a slice, and the refutations for the code as found.
    The refinement of the fixed-length file is in Proofs/MemIORefine.v.  No axioms. *)
 From Coq Require Import ZArith List Bool Lia.
-Require Import Rig.Model.Base Rig.Model.MemIO Rig.Spec.MemIO.
+Require Import Rig.Generated.GenMemIO Rig.Model.Base Rig.Model.MemIO Rig.Spec.MemIO.
 Import ListNotations.
 Open Scope Z_scope.
 
-(* case analysis on one boolean comparison of the goal at a time *)
+(* case analysis on one boolean comparison of the goal at a time, innermost first (a comparison
+   whose arguments still contain an undecided `if` is left for later), reducing in between *)
+Ltac no_if t := lazymatch t with context [if _ then _ else _] => fail | _ => idtac end.
 Ltac zcase :=
   match goal with
   | |- context [?a >? ?b] => rewrite (Z.gtb_ltb a b)
-  | |- context [?a <? ?b] => destruct (Z.ltb_spec a b)
-  | |- context [?a <=? ?b] => destruct (Z.leb_spec a b)
-  | |- context [?a =? ?b] => destruct (Z.eqb_spec a b)
-  end.
+  | |- context [?a <? ?b] => no_if a; no_if b; destruct (Z.ltb_spec a b)
+  | |- context [?a <=? ?b] => no_if a; no_if b; destruct (Z.leb_spec a b)
+  | |- context [?a =? ?b] => no_if a; no_if b; destruct (Z.eqb_spec a b)
+  end; cbv zeta beta iota; cbn [andb orb fst snd].
 Ltac zcases := repeat zcase.
 
 (* ------------------------------------------------------------------------------------------ *)
@@ -83,11 +85,18 @@ Lemma read_plan_spec : forall v n,
   /\ (0 < k -> k = transfer (v_off v) (read_req v n) (vlen v))
   /\ (k <= 0 -> transfer (v_off v) (read_req v n) (vlen v) = 0).
 Proof.
-  intros v n. unfold read_plan, read_req, warned, transfer, vlen, address. cbn [fst snd].
-  destruct v as [s e off cl]; cbn [v_start v_end v_off].
-  destruct (Z.ltb_spec n 0) as [Hn|Hn];
-    zcases; cbn [andb orb fst snd]; zcases; repeat split; intros; cbn [andb orb] in *;
-    try reflexivity; try lia.
+  intros v n. unfold read_plan, gen_read_plan, read_req, warned, transfer, vlen, gen_len, address, gen_address. cbn [fst snd].
+  destruct v as [s e off cl]; cbn [v_start v_end v_off]. cbv zeta.
+  zcases; repeat split; intros; try reflexivity; try lia.
+Qed.
+
+Lemma gen_write_plan_spec : forall s e off nb,
+  0 <= nb ->
+  (0 <? fst (gen_write_plan s e off nb)) = warned off nb (e - s)
+  /\ snd (gen_write_plan s e off nb) = transfer off nb (e - s).
+Proof.
+  intros s e off nb Hnb. unfold gen_write_plan, warned, transfer. cbv zeta.
+  zcases; split; try reflexivity; lia.
 Qed.
 
 Lemma write_plan_spec : forall v bs,
@@ -96,31 +105,14 @@ Lemma write_plan_spec : forall v bs,
   (0 <? fst (write_plan v bs)) = warned (v_off v) (zlen bs) (vlen v)
   /\ zlen b = k /\ b = firstn (Z.to_nat k) bs.
 Proof.
-  intros v bs. unfold write_plan, warned, transfer, vlen, address, py_prefix. cbn [fst snd].
-  destruct v as [s e off cl]; cbn [v_start v_end v_off].
+  intros v bs. cbv zeta. unfold write_plan, vlen, gen_len.
   pose proof (zlen_nonneg _ bs) as Hbs.
-  destruct (off <? 0) eqn:Eoff; cbn [andb orb].
-  - apply Z.ltb_lt in Eoff.
-    destruct (zlen bs >? 0) eqn:Epos; cbn [andb orb fst snd].
-    + rewrite zlen_nil. rewrite Z.gtb_ltb in Epos. apply Z.ltb_lt in Epos.
-      zcases; cbn [fst snd]; rewrite ?firstn_nil; change (Z.to_nat 0) with 0%nat; cbn [firstn];
-        rewrite ?zlen_nil; repeat split; try reflexivity; try lia.
-    + rewrite Z.gtb_ltb in Epos. apply Z.ltb_ge in Epos.
-      assert (Hz : zlen bs = 0) by lia. rewrite (zlen_zero _ _ Hz). rewrite zlen_nil.
-      zcases; cbn [fst snd]; rewrite ?firstn_nil; rewrite ?zlen_nil; repeat split; try reflexivity; try lia.
-  - apply Z.ltb_ge in Eoff.
-    destruct (off + s + zlen bs >? e) eqn:Eover; cbn [fst snd]; rewrite Z.gtb_ltb in Eover.
-    + apply Z.ltb_lt in Eover.
-      assert (Hge : (Z.max 0 (e - (off + s)) <? 0) = false) by (apply Z.ltb_ge; lia).
-      rewrite Hge.
-      assert (Hk : Z.max 0 (Z.min (zlen bs) (e - s - off)) = Z.max 0 (e - (off + s))) by lia.
-      rewrite Hk. rewrite zlen_firstn by lia.
-      repeat split; lia.
-    + apply Z.ltb_ge in Eover.
-      assert (Hk : Z.max 0 (Z.min (zlen bs) (e - s - off)) = zlen bs) by lia.
-      rewrite Hk. assert (Hn : Z.to_nat (zlen bs) = length bs) by (unfold zlen; apply Nat2Z.id).
-      rewrite Hn, firstn_all.
-      repeat split; try reflexivity; lia.
+  destruct (gen_write_plan_spec (v_start v) (v_end v) (v_off v) (zlen bs) Hbs) as (Hw & Hk).
+  destruct (gen_write_plan (v_start v) (v_end v) (v_off v) (zlen bs)) as [w k0]. cbn [fst snd] in *.
+  subst k0. split; [exact Hw|]. split; [|reflexivity].
+  assert (Hle : 0 <= transfer (v_off v) (zlen bs) (v_end v - v_start v) <= zlen bs)
+    by (unfold transfer; zcases; lia).
+  rewrite zlen_firstn by lia. lia.
 Qed.
 
 Lemma transfer_bounds : forall pos req n, 0 < transfer pos req n -> 0 <= pos /\ pos + transfer pos req n <= n.
@@ -142,9 +134,9 @@ Proof.
   - split; [intros c []|]. repeat split.
   - apply Z.leb_gt in Ek. specialize (Hpos Ek).
     assert (Hb := transfer_bounds (v_off v) (read_req v n) (vlen v)). rewrite <- Hpos in Hb.
-    specialize (Hb Ek). unfold vlen in Hb.
+    specialize (Hb Ek). unfold vlen, gen_len in Hb.
     split; [|repeat split].
-    intros c [Hc|[]]. subst c. unfold call_within, address. lia.
+    intros c [Hc|[]]. subst c. unfold call_within, address, gen_address. lia.
 Qed.
 
 Lemma write_calls : forall v bs v' out,
@@ -160,17 +152,17 @@ Proof.
   - split; [intros c []|]. repeat split.
   - apply Z.eqb_neq in Ek. pose proof (zlen_nonneg _ b) as Hnn.
     assert (Hpos : 0 < transfer (v_off v) (zlen bs) (vlen v)) by lia.
-    assert (Hb := transfer_bounds _ _ _ Hpos). unfold vlen in Hb, Hlen.
+    assert (Hb := transfer_bounds _ _ _ Hpos). unfold vlen, gen_len in Hb, Hlen.
     split; [|repeat split].
-    intros c [Hc|[]]. subst c. unfold call_within, address. lia.
+    intros c [Hc|[]]. subst c. unfold call_within, address, gen_address. lia.
 Qed.
 
 Lemma seek_same_range : forall v n wh v' out,
   seek v n wh = (v', out) ->
   o_calls out = [] /\ v_start v' = v_start v /\ v_end v' = v_end v /\ v_closed v' = v_closed v.
 Proof.
-  intros v n wh v' out H. unfold seek in H.
-  destruct (wh =? 0); [|destruct (wh =? 1); [|destruct (wh =? 2)]]; inversion H; subst; repeat split.
+  intros v n wh v' out H. unfold seek, gen_seek in H.
+  destruct (wh =? 0); [|destruct (wh =? 1); [|destruct (wh =? 2)]]; cbn in H; inversion H; subst; repeat split.
 Qed.
 
 Lemma slice_view_nested : forall v a b,
@@ -178,7 +170,7 @@ Lemma slice_view_nested : forall v a b,
   let w := slice_view v a b in
   v_start v <= v_start w /\ v_start w <= v_end w /\ v_end w <= v_end v.
 Proof.
-  intros v a b Hwf. unfold slice_view, new_view, slice_start, slice_stop. cbn [v_start v_end].
+  intros v a b Hwf. unfold slice_view, new_view, gen_init_end, slice_start, slice_stop, gen_slice_start, gen_slice_stop, gen_slice_start_none, gen_slice_stop_none. cbn [v_start v_end].
   destruct a as [x|]; destruct b as [y|]; zcases; lia.
 Qed.
 
@@ -315,7 +307,7 @@ Proof. intros l fr m r t Hl Hall. unfold views_inside. cbn [st_views]. rewrite H
 
 Lemma init_inside : forall s e m, views_inside (init s e m).
 Proof.
-  intros s e m. unfold init, views_inside, new_view. cbn [st_views v_start v_end].
+  intros s e m. unfold init, views_inside, new_view, gen_init_end. cbn [st_views v_start v_end].
   constructor; [cbn [v_start v_end]; lia | constructor].
 Qed.
 
@@ -625,10 +617,10 @@ Lemma transfer_explicit : forall pos req n,
   (0 <= pos -> transfer pos req n = Z.max 0 (Z.min req (n - pos)))
   /\ (pos < 0 -> transfer pos req n = 0)
   /\ (0 <= req -> 0 <= transfer pos req n <= req)
-  /\ (0 <= req -> transfer pos req n < req -> warned pos req n = true)
-  /\ (0 <= pos <= n -> warned pos req n = true -> transfer pos req n < req).
+  /\ (warned pos req n = true <-> transfer pos req n < req).
 Proof.
-  intros pos req n. unfold transfer, warned. repeat split; intros; zcases; cbn [andb orb] in *; try lia.
+  intros pos req n. unfold warned. split; [|split; [|split; [|apply Z.ltb_lt]]];
+    unfold transfer; intros; zcases; lia.
 Qed.
 
 Lemma mem_read_length : forall m a k, 0 <= k -> zlen (mem_read m a k) = k.
@@ -642,34 +634,35 @@ Theorem read_truncation : forall m v n v' out,
     /\ v_off v' = v_off v + k
     /\ (0 <= v_off v -> k = Z.max 0 (Z.min n (vlen v - v_off v)))
     /\ (v_off v < 0 -> k = 0)
-    /\ (k < n -> 0 < o_warns out)
-    /\ (0 <= v_off v <= vlen v -> 0 < o_warns out -> k < n).
+    /\ (k < n <-> 0 < o_warns out).
 Proof.
   intros m v n v' out Hn H. destruct (read_transfers _ _ _ _ _ H) as (Hres & Hv' & Hw & _). cbv zeta in *.
   assert (Hreq : read_req v n = n) by (unfold read_req; destruct (Z.ltb_spec n 0); [lia|reflexivity]).
   rewrite Hreq in *.
-  destruct (transfer_explicit (v_off v) n (vlen v)) as (H1 & H2 & H3 & H4 & H5).
+  destruct (transfer_explicit (v_off v) n (vlen v)) as (H1 & H2 & H3 & H4).
   exists (transfer (v_off v) n (vlen v)).
   split; [exact Hres|]. split; [apply mem_read_length; lia|]. split; [lia|].
   split; [subst v'; reflexivity|]. split; [exact H1|]. split; [exact H2|].
-  split.
-  - intros Hlt. apply Z.ltb_lt. rewrite Hw. apply H4; [exact Hn|exact Hlt].
-  - intros Hr Hpos. apply H5; [exact Hr|]. rewrite <- Hw. apply Z.ltb_lt. exact Hpos.
+  rewrite <- H4, <- Hw. symmetry. apply iff_sym, Z.ltb_lt.
 Qed.
 
 (* read() / read(negative): everything from the cursor to the end, no truncation to speak of *)
 Theorem read_default : forall m v n v' out,
   n < 0 -> read m v n = (v', out) ->
   let k := if (0 <=? v_off v) && (v_off v <=? vlen v) then vlen v - v_off v else 0 in
-  o_res out = Ok (VBytes (mem_read m (address v) k)) /\ v_off v' = v_off v + k.
+  o_res out = Ok (VBytes (mem_read m (address v) k)) /\ v_off v' = v_off v + k
+  /\ (0 <= v_off v -> o_warns out <= 0).
 Proof.
-  intros m v n v' out Hn H. destruct (read_transfers _ _ _ _ _ H) as (Hres & Hv' & _ & _). cbv zeta in *.
+  intros m v n v' out Hn H. destruct (read_transfers _ _ _ _ _ H) as (Hres & Hv' & Hw & _). cbv zeta in *.
   assert (Hreq : read_req v n = vlen v - v_off v) by (unfold read_req; destruct (Z.ltb_spec n 0); [reflexivity|lia]).
   rewrite Hreq in *.
   assert (Hk : transfer (v_off v) (vlen v - v_off v) (vlen v)
                = if (0 <=? v_off v) && (v_off v <=? vlen v) then vlen v - v_off v else 0).
   { unfold transfer. zcases; cbn [andb]; lia. }
-  rewrite Hk in *. split; [exact Hres|]. subst v'. reflexivity.
+  assert (Hnw : 0 <= v_off v -> warned (v_off v) (vlen v - v_off v) (vlen v) = false).
+  { intros Hp. unfold warned, transfer. zcases; lia. }
+  rewrite Hk in *. split; [exact Hres|]. split; [subst v'; reflexivity|].
+  intros Hp. rewrite (Hnw Hp) in Hw. apply Z.ltb_ge in Hw. exact Hw.
 Qed.
 
 Theorem write_truncation : forall v bs v' out,
@@ -680,18 +673,15 @@ Theorem write_truncation : forall v bs v' out,
     /\ o_calls out = (if 0 <? k then [CWrite (address v) (firstn (Z.to_nat k) bs)] else [])
     /\ (0 <= v_off v -> k = Z.max 0 (Z.min (zlen bs) (vlen v - v_off v)))
     /\ (v_off v < 0 -> k = 0)
-    /\ (k < zlen bs -> 0 < o_warns out)
-    /\ (0 <= v_off v <= vlen v -> 0 < o_warns out -> k < zlen bs).
+    /\ (k < zlen bs <-> 0 < o_warns out).
 Proof.
   intros v bs v' out H. destruct (write_transfers _ _ _ _ H) as (Hres & Hv' & Hw & Hc). cbv zeta in *.
   pose proof (zlen_nonneg _ bs) as Hn.
-  destruct (transfer_explicit (v_off v) (zlen bs) (vlen v)) as (H1 & H2 & H3 & H4 & H5).
+  destruct (transfer_explicit (v_off v) (zlen bs) (vlen v)) as (H1 & H2 & H3 & H4).
   exists (transfer (v_off v) (zlen bs) (vlen v)).
   split; [exact Hres|]. split; [lia|]. split; [subst v'; reflexivity|]. split; [exact Hc|].
   split; [exact H1|]. split; [exact H2|].
-  split.
-  - intros Hlt. apply Z.ltb_lt. rewrite Hw. apply H4; [exact Hn|exact Hlt].
-  - intros Hr Hpos. apply H5; [exact Hr|]. rewrite <- Hw. apply Z.ltb_lt. exact Hpos.
+  rewrite <- H4, <- Hw. symmetry. apply iff_sym, Z.ltb_lt.
 Qed.
 
 (* ------------------------------------------------------------------------------------------ *)
@@ -707,7 +697,7 @@ Proof.
   intros v a b Hwf. cbv zeta.
   destruct (slice_view_nested v a b Hwf) as (H1 & H2 & H3). cbv zeta in *.
   split; [exact H1|]. split; [exact H2|]. split; [exact H3|]. split; [reflexivity|]. split; [reflexivity|].
-  intros x. unfold in_slice, named_start, named_stop, vlen, slice_view, new_view, slice_start, slice_stop.
+  intros x. unfold in_slice, named_start, named_stop, vlen, gen_len, slice_view, new_view, gen_init_end, slice_start, slice_stop, gen_slice_start, gen_slice_stop, gen_slice_start_none, gen_slice_stop_none.
   cbn [v_start v_end].
   destruct a as [p|]; destruct b as [q|]; zcases; lia.
 Qed.
@@ -719,7 +709,7 @@ Lemma slice_view_clip : forall v a b,
   v_start w = v_start v + clip_start (vlen v) a
   /\ v_end w = v_start v + Z.max (clip_start (vlen v) a) (clip_stop (vlen v) b).
 Proof.
-  intros v a b Hwf. unfold slice_view, new_view, slice_start, slice_stop, clip_start, clip_stop, clip, vlen.
+  intros v a b Hwf. unfold slice_view, new_view, gen_init_end, slice_start, slice_stop, gen_slice_start, gen_slice_stop, gen_slice_start_none, gen_slice_stop_none, clip_start, clip_stop, clip, vlen, gen_len.
   cbn [v_start v_end].
   destruct a as [p|]; destruct b as [q|]; zcases; lia.
 Qed.
@@ -727,14 +717,20 @@ Qed.
 (* the warning counters are never negative *)
 Lemma o_warns_nonneg_read : forall m v n, 0 <= o_warns (snd (read m v n)).
 Proof.
-  intros m v n. unfold read, read_plan. cbn [fst snd].
-  repeat match goal with |- context [if ?c then _ else _] => destruct c end; cbn [snd o_warns]; lia.
+  intros m v n. unfold read, read_plan.
+  assert (Hw : 0 <= fst (gen_read_plan (v_start v) (v_end v) (v_off v) n))
+    by (unfold gen_read_plan; cbv zeta; zcases; lia).
+  destruct (gen_read_plan (v_start v) (v_end v) (v_off v) n) as [w k]. cbn [fst] in Hw.
+  destruct (k <=? 0); cbn [snd o_warns]; exact Hw.
 Qed.
 
 Lemma o_warns_nonneg_write : forall v bs, 0 <= o_warns (snd (write v bs)).
 Proof.
-  intros v bs. unfold write, write_plan. cbn [fst snd].
-  repeat match goal with |- context [if ?c then _ else _] => destruct c end; cbn [snd o_warns]; lia.
+  intros v bs. unfold write, write_plan.
+  assert (Hw : 0 <= fst (gen_write_plan (v_start v) (v_end v) (v_off v) (zlen bs)))
+    by (unfold gen_write_plan; cbv zeta; zcases; lia).
+  destruct (gen_write_plan (v_start v) (v_end v) (v_off v) (zlen bs)) as [w k]. cbn [fst] in Hw.
+  destruct (zlen (firstn (Z.to_nat k) bs) =? 0); cbn [snd o_warns]; exact Hw.
 Qed.
 
 (* ------------------------------------------------------------------------------------------ *)
@@ -863,4 +859,79 @@ Proof.
     destruct c; [exact Hw | exact Hw | cbn in Hcw; contradiction].
   - destruct (Hconf c Hc) as (root' & Hr0 & Hceq). rewrite Hviews in Hr0. cbn in Hr0.
     injection Hr0 as Hr0. subst root' c. exact Hrs.
+Qed.
+
+(* ------------------------------------------------------------------------------------------ *)
+(* memory outside the allocation is never changed                                               *)
+(* ------------------------------------------------------------------------------------------ *)
+Definition write_within (lo hi : Z) (c : call) : Prop :=
+  match c with CWrite a bs => lo <= a /\ a + zlen bs <= hi | _ => True end.
+
+Lemma apply_calls_outside : forall cs m lo hi x,
+  (forall c, In c cs -> write_within lo hi c) -> ~ (lo <= x < hi) -> apply_calls m cs x = m x.
+Proof.
+  induction cs as [|c cs IH]; intros m lo hi x Hall Hx; [reflexivity|].
+  unfold apply_calls. cbn [fold_left]. fold (apply_calls (apply_call m c) cs).
+  rewrite (IH _ lo hi x); [|intros c' Hc'; apply Hall; right; exact Hc'|exact Hx].
+  specialize (Hall c (or_introl eq_refl)).
+  destruct c as [a n|a bs|a]; cbn [apply_call]; try reflexivity.
+  unfold mem_write. cbn [write_within] in Hall.
+  destruct (Z.leb_spec a x); destruct (Z.ltb_spec x (a + zlen bs)); cbn [andb]; try reflexivity. lia.
+Qed.
+
+Lemma step_mem : forall st o,
+  st_mem (fst (step st o)) = apply_calls (st_mem st) (o_calls (snd (step st o))).
+Proof.
+  intros st o. unfold step, step_with. destruct o as [i vo| |].
+  - destruct (nth_error (st_views st) i) as [v|]; [|reflexivity].
+    destruct (vstep (st_freed st) (st_mem st) v vo) as [[v' nw] out]. reflexivity.
+  - destruct (st_views st); [reflexivity|]. destruct (st_freed st); reflexivity.
+  - destruct (st_views st); [reflexivity|]. destruct (st_freed st); reflexivity.
+Qed.
+
+Lemma run_mem_outside : forall ops st lo hi x,
+  (forall ev c, In ev (trace st ops) -> In c (o_calls (snd ev)) -> write_within lo hi c) ->
+  ~ (lo <= x < hi) -> st_mem (run st ops) x = st_mem st x.
+Proof.
+  induction ops as [|o rest IH]; intros st lo hi x Hall Hx; [reflexivity|].
+  rewrite run_cons. rewrite trace_cons in Hall.
+  rewrite (IH _ lo hi x); [|intros ev c Hev Hc; apply (Hall ev c); [right; exact Hev|exact Hc]|exact Hx].
+  rewrite step_mem. apply (apply_calls_outside _ _ lo hi); [|exact Hx].
+  intros c Hc. apply (Hall (st, o, snd (step st o)) c); [left; reflexivity|exact Hc].
+Qed.
+
+Theorem memory_outside_untouched : forall s e m ops x,
+  ~ (s <= x < Z.max s e) -> st_mem (run (init s e m) ops) x = m x.
+Proof.
+  intros s e m ops x Hx.
+  rewrite (run_mem_outside ops (init s e m) s (Z.max s e) x); [reflexivity| |exact Hx].
+  intros [[st o] out] c Hev Hc. cbn [snd] in Hc.
+  pose proof (allocation_confined s e m ops st o out c Hev Hc) as Hcw.
+  destruct c as [a n|a bs|a]; cbn [write_within]; [exact I| |exact I].
+  cbn [call_within] in Hcw. lia.
+Qed.
+
+(* ------------------------------------------------------------------------------------------ *)
+(* the entry point: MachineController.sdram_alloc_as_filelike(size) on a block at `start`        *)
+(* ------------------------------------------------------------------------------------------ *)
+Theorem filelike_confined : forall start size m ops st o out c,
+  0 <= size ->
+  In (st, o, out) (trace (alloc_as_filelike start size m) ops) -> In c (o_calls out) ->
+  match c with
+  | CFree a => a = start
+  | _ => call_within start (start + size) c
+  end.
+Proof.
+  intros start size m ops st o out c Hsize Hev Hc. unfold alloc_as_filelike, gen_filelike_end in Hev.
+  pose proof (allocation_confined start (start + size) m ops st o out c Hev Hc) as H.
+  replace (Z.max start (start + size)) with (start + size) in H by lia. exact H.
+Qed.
+
+Lemma filelike_len : forall start size m,
+  0 <= size ->
+  exists v, st_views (alloc_as_filelike start size m) = [v]
+            /\ v_start v = start /\ vlen v = size /\ v_off v = 0 /\ dead false v = false.
+Proof.
+  intros start size m Hsize. eexists. split; [reflexivity|].
+  unfold vlen, gen_len, new_view, gen_init_end, gen_filelike_end. cbn. repeat split; lia.
 Qed.
